@@ -97,6 +97,8 @@ var defaultServers = NewServers(nil)
 const (
 	headerAge         = "Age"
 	headerCacheStatus = "X-Status"
+	headerRange       = "Range"
+	headerIfRange     = "If-Range"
 )
 
 var (
